@@ -202,6 +202,18 @@ def extend_model(model: sites.SiteModel, base: str, sc: Scratch) -> None:
                     # no selector field: the display string is the selector
                     "0../../outside-secret.txt\t\n1../../SIBLING\t\n0/../outside-secret.txt\t\n0../../outside-secret.txt\n"
                     "0..\\..\\outside-secret.txt\t\t\t\n")
+    # templates whose path expressions climb (the loaders a template is given walk the site's directories)
+    model.tree.file("tpl/climb.html.tal", b"""<html><body>
+<ul><li tal:repeat="n root/../getchildrennames | nothing" tal:content="n">x</li></ul>
+<ul><li tal:repeat="n dir/../../SIBLING/getchildrennames | nothing" tal:content="n">x</li></ul>
+<ul><li tal:repeat="n rroot/../SIBLING/getchildrennames | nothing" tal:content="n">x</li></ul>
+<div metal:use-macro="root/../outside/macros/m | default">no macro</div>
+<p tal:content="exists:root/../SIBLING">e</p><p tal:content="exists:dir/../../outside-secret.txt">e</p>
+<p tal:define="up string:.." tal:content="exists:root/?up/SIBLING">e</p>
+<p tal:content="root/../getpath | string:none">p</p>
+<p tal:content="structure root/../outside | nothing">included</p>
+</body></html>""")
+    model.add(b"/tpl/climb.html.tal", "doc", None, needs_full=True, tags=["tal", "climbing-content"])
     model.tree.file("climbmap/inside.txt", "inside\n")
     model.add(b"/climbmap", "menu", tags=["dir", "climbing-content"])
     model.tree.file("climblinks/.Links", "Name=Up\nType=0\nPath=../../outside-secret.txt\n\nName=Up2\nType=0\nPath=./../../outside-secret.txt\n\n"
